@@ -632,6 +632,48 @@ func c02Enumerate(quick bool, visit func(label string, decls gd) bool) {
 			}
 		}
 	}
+	// Level D: degenerate declarations - empty object, empty array, bare field - alone, as siblings of
+	// each other in every combination and order (equal-looking texts must not share results), through
+	// templates, nested, with every option
+	var degs []gd
+	for _, base := range []gd{{"object": gd{}}, {"array": []interface{}{}}, {}, {"object": gd{"e": gd{"object": gd{}}}}, {"array": []interface{}{gd{"object": gd{}}}}, {"object": gd{"e": gd{}}}} {
+		for _, keep := range []bool{false, true} {
+			for _, xp := range []string{"", "a", "nomatch"} {
+				if xp != "" && base["array"] != nil {
+					continue // an array declaration takes no xpath of its own
+				}
+				d := cp(base)
+				if keep {
+					d["keep_empty_or_null"] = true
+				}
+				if xp != "" {
+					d["xpath"] = xp
+				}
+				degs = append(degs, d)
+			}
+		}
+	}
+	for i, d := range degs {
+		if !visit("D:degenerate-alone", fo(gd{"object": gd{"k": d}})) ||
+			!visit("D:degenerate-alone", fo(d)) ||
+			!visit("D:degenerate-alone", fo(gd{"array": []interface{}{d, gd{"const": "x"}}})) ||
+			!visit("D:degenerate-template", gd{"FINAL_OUTPUT": gd{"object": gd{"c": gd{"template": "T"}}}, "T": d}) ||
+			(d["xpath"] == nil && !visit("D:degenerate-template", gd{"FINAL_OUTPUT": gd{"template": "T"}, "T": d})) ||
+			(d["xpath"] == nil && !visit("D:degenerate-template", gd{"FINAL_OUTPUT": gd{"object": gd{"c": gd{"xpath": "a", "template": "T"}, "k": gd{"xpath": "c"}}}, "T": d})) ||
+			(d["object"] == nil && d["array"] == nil && d["xpath"] != nil && !visit("D:degenerate-concat-arg", fo(gd{"object": gd{"k": gd{"custom_func": gd{"name": "concat", "args": []interface{}{gd{"const": "<"}, d, gd{"const": ">"}}}}}}))) {
+			return
+		}
+		for j, e := range degs {
+			if i == j {
+				continue
+			}
+			if !visit("D:degenerate-siblings", fo(gd{"object": gd{"a": d, "b": e}})) ||
+				!visit("D:degenerate-siblings", gd{"FINAL_OUTPUT": gd{"object": gd{"a": d, "b": e, "c": gd{"template": "T"}}}, "T": e}) ||
+				!visit("D:degenerate-siblings", fo(gd{"array": []interface{}{d, e}})) {
+				return
+			}
+		}
+	}
 }
 
 func init() {
